@@ -3,7 +3,7 @@ per dimension, the property's own restriction), and StringArray histories over a
 """
 import itertools
 import imath
-from c19_common import fork_map, run_case, int_array, masks_of, ASAN
+from c19_common import fork_map, run_case, int_array, masks_of, ASAN, HUGE, huge_class
 
 R4 = list(range(-4, 5))
 S4 = [None] + R4
@@ -32,6 +32,9 @@ def reps(L):
 
 
 def show(ix): return repr(ix).replace("slice", "s")
+
+
+HTAG = {"int-range": "huge-index", "ssize-range": "index-beyond-int", "overflowing": "overflowing-index"}
 
 
 def attempt(t, site, f):
@@ -161,15 +164,71 @@ def run_2d(item, t):
         _, exc = attempt(t, "nd.FixedArray2D.setitem.array1d", lambda: a.__setitem__((ix, iy), s1b))
         if exc is None: t.fail("nd.FixedArray2D.setitem.array1d.wrong-size", ctx + what + "=array1d(len %d)" % (kx * ky + 1), "an exception", read(a))
         unchanged("nd.FixedArray2D.setitem.array1d.wrong-size", what + "=array1d(len+1)")
+    # integer indices of magnitude 2^31..2^64 in either dimension: out of range whatever the size, also when the value does
+    # not fit the C index type
+    for k in HUGE:
+        tag = HTAG[huge_class(k)]
+        t.cls("nd.2d.int.huge." + huge_class(k))
+        for dim in (0, 1):
+            oth = 0 if (sy if dim == 0 else sx) else slice(None)
+            ix = (k, oth) if dim == 0 else (oth, k)
+            what = "a[%s,%s]" % (show(ix[0]), show(ix[1]))
+            t.add("transitions", 2)
+            r, exc = attempt(t, "nd.FixedArray2D.getitem", lambda: a[ix])
+            if exc is None: t.fail("nd.FixedArray2D.getitem." + tag, ctx + what, "an exception", read(r))
+            if isinstance(oth, int):
+                r, exc = attempt(t, "nd.FixedArray2D.item", lambda: a.item(*ix))
+                if exc is None: t.fail("nd.FixedArray2D.item." + tag, ctx + "item(%s,%s)" % ix, "an exception", repr(r))
+            oky = 1 if isinstance(oth, int) else (sx if dim == 1 else sy)
+            shp = (1, oky) if dim == 0 else (oky, 1)
+            for nm, v in (("elem", newv), ("array2d(%d,%d)" % shp, C(*shp)), ("array1d(len %d)" % oky, getattr(imath, c1d)(oky))):
+                t.add("transitions")
+                _, exc = attempt(t, "nd.FixedArray2D.setitem", lambda: a.__setitem__(ix, v))
+                site = "nd.FixedArray2D.setitem." + tag            # one site per container: all stores share extract_slice_indices
+                if exc is None: t.fail(site, ctx + what + "=" + nm, "an exception", read(a))
+                unchanged(site, what + "=" + nm)
     # masks (every 0/1 mask of the same shape; one wrong shape per axis)
     cells = [(i, j) for i in range(sx) for j in range(sy)]
     other = build(sx, sy, lambda i, j: 70 + 4 * i + j)
-    for bits in range(1 << len(cells)):
+    C1 = getattr(imath, c1d)
+    for bits, enc in [(b, e) for b in range(1 << len(cells)) for e in (0, 1)]:
         on = set(c for k, c in enumerate(cells) if (bits >> k) & 1)
-        t.cls("nd.2d.mask")
+        if enc and not on: continue
+        t.cls("nd.2d.mask.nonzero-values" if enc else "nd.2d.mask")
         m = imath.IntArray2D(sx, sy)
-        for (i, j) in cells: m[i, j] = 1 if (i, j) in on else 0
-        ms = "mask{%s}" % ",".join("%d%d" % c for c in sorted(on))
+        # enc 1: the selected cells hold other non-zero values than 1 (a mask entry selects iff it is non-zero)
+        for q, (i, j) in enumerate(cells): m[i, j] = ((2, -1, -2**31, 3)[q % 4] if enc else 1) if (i, j) in on else 0
+        ms = "mask{%s}%s" % (",".join("%d%d" % c for c in sorted(on)), " (entries 2,-1,INT_MIN,3,..)" if enc else "")
+        # a[mask] = array1d: full length (one source element per cell, flattened) or compressed (one per selected cell).
+        # The flattening order is not part of the property: x-fastest and y-fastest are both accepted, per call.
+        orders = [sorted(cells, key=lambda c: (c[1], c[0])), sorted(cells)]
+        for ln, kind in ((sx * sy, "full"), (len(on), "compressed")):
+            if kind == "compressed" and len(on) == sx * sy: continue
+            s1 = C1(ln)
+            for z in range(ln): s1[z] = mk(90 + z)
+            t.add("transitions"); t.cls("nd.2d.mask.array1d-" + kind)
+            _, exc = attempt(t, "nd.FixedArray2D.mask.setitem", lambda: a.__setitem__(m, s1))
+            cands = []
+            for od in orders:
+                M = [list(r_) for r_ in base]
+                seq = od if kind == "full" else [c for c in od if c in on]
+                for z, (i, j) in enumerate(seq):
+                    if (i, j) in on: M[i][j] = 90 + z
+                cands.append(want(M))
+            if exc or read(a) not in cands:
+                t.fail("nd.FixedArray2D.mask.setitem.array1d." + kind, ctx + "a[%s]=array1d(len %d)" % (ms, ln), "%s (x-fastest) or %s (y-fastest)" % tuple(cands), exc or read(a))
+            restore()
+        for ln in sorted({len(on) + 1, sx * sy + 1, len(on) - 1} - {len(on), sx * sy, -1}):
+            s1 = C1(ln)
+            t.add("transitions"); t.cls("nd.2d.mask.array1d-wrong-length")
+            _, exc = attempt(t, "nd.FixedArray2D.mask.setitem", lambda: a.__setitem__(m, s1))
+            if exc is None: t.fail("nd.FixedArray2D.mask.setitem.array1d.wrong-length", ctx + "a[%s]=array1d(len %d)" % (ms, ln), "an exception", read(a))
+            unchanged("nd.FixedArray2D.mask.setitem.array1d.wrong-length", "a[%s]=array1d(len %d)" % (ms, ln))
+        t.add("transitions")
+        r, exc = attempt(t, "nd.FixedArray2D.ifelse", lambda: a.ifelse(m, newv))
+        M = [[base[i][j] if (i, j) in on else 50 for j in range(sy)] for i in range(sx)]
+        if exc or read(r) != want(M): t.fail("nd.FixedArray2D.ifelse.scalar", ctx + "a.ifelse(%s, elem)" % ms, want(M), exc or read(r))
+        unchanged("nd.FixedArray2D.ifelse.scalar", "a.ifelse(mask, elem) modifies the receiver")
         t.add("transitions", 4)
         r, exc = attempt(t, "nd.FixedArray2D.mask.getitem", lambda: a[m])
         if exc or tuple(r.size()) != (sx, sy) or any(repr(r.item(i, j)) != repr(mk(base[i][j])) for (i, j) in on):
@@ -336,6 +395,21 @@ def run_matrix(item, t):
             unchanged("nd.FixedMatrix.setitem.matrix.wrong-size", what + "=matrix(%d,%d)" % (k + dr, nc + dc))
 
 
+    for k in HUGE:
+        tag = HTAG[huge_class(k)]
+        t.cls("nd.matrix.int.huge." + huge_class(k))
+        what = "m[%d]" % k
+        t.add("transitions")
+        r, exc = attempt(t, "nd.FixedMatrix.getitem", lambda: a[k])
+        if exc is None: t.fail("nd.FixedMatrix.getitem." + tag, ctx + what, "an exception", "a row")
+        for nm, v in (("scalar", newv), ("vector", vec(nc, lambda j: 60 + j)), ("matrix", build(1, nc, lambda i, j: 70 + j))):
+            t.add("transitions")
+            _, exc = attempt(t, "nd.FixedMatrix.setitem", lambda: a.__setitem__(k, v))
+            site = "nd.FixedMatrix.setitem." + tag
+            if exc is None: t.fail(site, ctx + what + "=" + nm, "an exception", read(a))
+            unchanged(site, what + "=" + nm)
+
+
 # ------------------------------------------------------------------------------------------------- FixedVArray
 VARS = {"VIntArray": (int, "IntArray"), "VFloatArray": (float, "FloatArray"),
         "VV2iArray": (lambda k: imath.V2i(k, k + 1), "V2iArray"), "VV2fArray": (lambda k: imath.V2f(k, k + 1), "V2fArray")}
@@ -455,6 +529,23 @@ def run_varray(item, t):
         okk = exc is None and all(len(got[i]) == len(M[i]) and all(M[i][j] is None or got[i][j] == repr(mk(M[i][j])) for j in range(len(M[i]))) for i in range(n))
         if not okk: t.fail("nd.FixedVArray.size-helper.resize", ctx + "v.size%s=1" % what[1:], "selected items resized to 1 keeping their first element", exc or got)
         if sel: fresh()
+    for k in HUGE:
+        tag = HTAG[huge_class(k)]
+        t.cls("nd.varray.int.huge." + huge_class(k))
+        what = "v[%d]" % k
+        t.add("transitions", 2)
+        r, exc = attempt(t, "nd.FixedVArray.getitem", lambda: a[k])
+        if exc is None: t.fail("nd.FixedVArray.getitem." + tag, ctx + what, "an exception", "a row")
+        r, exc = attempt(t, "nd.FixedVArray.size-helper", lambda: a.size[k])
+        if exc is None: t.fail("nd.FixedVArray.size-helper.getitem." + tag, ctx + "v.size[%d]" % k, "an exception", repr(r))
+        last = sizes[-1] if n else 0
+        for nm, site, f in (("=array(len %d)" % last, "nd.FixedVArray.setitem." + tag, lambda: a.__setitem__(k, vec([60 + j for j in range(last)]))),
+                            ("=varray(len 1)", "nd.FixedVArray.setitem." + tag, lambda: a.__setitem__(k, build([[61]]))),
+                            (" size=1", "nd.FixedVArray.size-helper.setitem." + tag, lambda: a.size.__setitem__(k, 1))):
+            t.add("transitions")
+            _, exc = attempt(t, "nd.FixedVArray.setitem", f)
+            if exc is None: t.fail(site, ctx + what + nm, "an exception", read(a))
+            state(site, what + nm, base)
     for ml in (n - 1, n, n + 1):
         if ml < 0: continue
         for mask in masks_of(ml):
@@ -612,6 +703,9 @@ def run(R, thorough):
     items += [("var", c, sz) for c in cv for n in range(4) for sz in itertools.product((0, 1, 2), repeat=n)]
     for d in ("2d", "matrix", "varray"):
         R.declare("nd.%s.int.in-range" % d, "nd.%s.int.out-of-range" % d, "nd.%s.slice.empty" % d, "nd.%s.slice.forward" % d, "nd.%s.slice.zero-step" % d)
+    for d in ("2d", "matrix", "varray"):
+        R.declare(*["nd.%s.int.huge.%s" % (d, c) for c in ("int-range", "ssize-range", "overflowing")])
+    R.declare("nd.2d.mask.nonzero-values", "nd.2d.mask.array1d-full", "nd.2d.mask.array1d-compressed", "nd.2d.mask.array1d-wrong-length")
     R.declare("nd.2d.mask", "nd.2d.mask-wrong-shape", "nd.varray.mask", "nd.varray.mask-wrong-length", "nd.2d.malformed-index", "nd.varray.mask.slice-of-non-adjacent-rows", "nd.matrix.row-store-from-masked-reference")
     ok = fork_map(run_any, items, R, "nd.worker.fatal", describe=repr)
     malformed_2d(R)
